@@ -90,6 +90,7 @@ class Gen:
         self.fired = {}       # fault kind -> count (as generated into the program)
         self.events = []      # abstract event log for coverage signature
         self.skipped = {}
+        self.subvars = set()  # leaf ids that are instances of a puan.variable *subclass* in this world
         self.last_keys = {}
         self.async_abort = False   # only C09 histories carry asynchronous aborts
         self.history = {}     # handle -> call ops emitted on it (for echo / replay on a reborn object)
@@ -108,6 +109,8 @@ class Gen:
             # default columns
             k = rng.randint(1, min(3, len(pool)))
             pool = pool[:-k] + ["1", "2", "3", "0"][:k]
+        if rng.random() < 0.08:
+            self.subvars = set(rng.sample(pool, rng.randint(1, min(2, len(pool)))))
         for c in pool:
             if rng.random() < self.p["int_leaf_prob"]:
                 self.leafb[c] = rng.choice(fam)
@@ -235,6 +238,8 @@ class Gen:
     # ------------------------------------------------------------------ recipes
     def leaf(self, i):
         lo, hi = self.leafb[i]
+        if i in self.subvars:
+            return ["subvar", i, lo, hi]
         if (lo, hi) == (0, 1) and self.rng.random() < 0.6:
             return ["str", i]
         return ["var", i, lo, hi]
@@ -296,8 +301,8 @@ class Gen:
         ch = ch2
         ident = self.idspec(used)
         if t == "AtLeast":
-            lo = sum(self.leafb[c[1]][0] if c[0] in ("var", "str") else 0 for c in ch)
-            hi = sum(self.leafb[c[1]][1] if c[0] in ("var", "str") else 1 for c in ch)
+            lo = sum(self.leafb[c[1]][0] if c[0] in ("var", "str", "subvar") else 0 for c in ch)
+            hi = sum(self.leafb[c[1]][1] if c[0] in ("var", "str", "subvar") else 1 for c in ch)
             if rng.random() < 0.7:
                 lo, hi = max(lo, -40), min(hi, 40)
             else:
@@ -309,7 +314,7 @@ class Gen:
                 value = rng.randint(lo - 1, hi + 1)
             return ["AtLeast", value, ch, ident, sign]
         if t == "AtMost":
-            hi = sum(self.leafb[c[1]][1] if c[0] in ("var", "str") else 1 for c in ch)
+            hi = sum(self.leafb[c[1]][1] if c[0] in ("var", "str", "subvar") else 1 for c in ch)
             return ["AtMost", rng.randint(0, max(0, min(hi, 40 if rng.random() < 0.7 else 40000))), ch, ident]
         if t in ("All", "Any", "Xor", "ExactlyOne", "XNor"):
             return [t, ch, ident]
@@ -320,7 +325,7 @@ class Gen:
         if t == "Not":
             return ["Not", ch[0]]
         if t in ("ccAny", "ccXor"):
-            leaf_ids = [c[1] for c in ch if c[0] in ("var", "str")]
+            leaf_ids = [c[1] for c in ch if c[0] in ("var", "str", "subvar")]
             default = None
             if leaf_ids and rng.random() < 0.85:
                 d = rng.choice(leaf_ids)
@@ -440,7 +445,7 @@ class Gen:
         for n in R.walk(rec):
             if n[0] in ("ccAny", "ccXor") and n[2] is not None:
                 d = n[2][0] if isinstance(n[2], list) and n[2] and n[2][0] != "dv" else (n[2][1] if isinstance(n[2], list) else n[2])
-                rest = [c for c in n[1] if c[0] in ("var", "str") and c[1] != d]
+                rest = [c for c in n[1] if c[0] in ("var", "str", "subvar") and c[1] != d]
                 if rest and len(rest) < len(n[1]):
                     cands.append(rest)
         if not cands:
@@ -476,7 +481,7 @@ class Gen:
         how = rng.choice(["bounds", "bounds", "bounds", "default", "class"])
         done = False
         if how == "bounds":
-            cands = [n for n in nodes if n[0] in ("var", "str")]
+            cands = [n for n in nodes if n[0] in ("var", "str", "subvar")]
             rng.shuffle(cands)
             top_level = {repr(c) for c in R.children(rec)}
             # nested leaves first: a changed bound of a direct child of the top node changes equation_bounds,
@@ -501,8 +506,8 @@ class Gen:
                 i = n[1]
                 # change every occurrence of this leaf id consistently
                 for m in nodes:
-                    if m[0] in ("var", "str") and m[1] == i:
-                        m[:] = ["var", i, nlo, nhi]
+                    if m[0] in ("var", "str", "subvar") and m[1] == i:
+                        m[:] = ["subvar" if m[0] == "subvar" else "var", i, nlo, nhi]
                 done = True
                 break
         if how == "default" or (not done and how != "class"):
@@ -510,8 +515,8 @@ class Gen:
                 if n[0] in ("ccAny", "ccXor") and n[2] is not None:
                     if n[0] == "ccAny":
                         d = n[2][0] if isinstance(n[2], list) and n[2][0] != "dv" else (n[2][1] if isinstance(n[2], list) else n[2])
-                        dflt = [c for c in n[1] if c[0] in ("var", "str") and c[1] == d]
-                        rest = [c for c in n[1] if not (c[0] in ("var", "str") and c[1] == d)]
+                        dflt = [c for c in n[1] if c[0] in ("var", "str", "subvar") and c[1] == d]
+                        rest = [c for c in n[1] if not (c[0] in ("var", "str", "subvar") and c[1] == d)]
                         if dflt and rest:
                             n[:] = ["Any", dflt + [["Any", rest, None]], n[3]]
                             done = True
